@@ -51,6 +51,15 @@ func (o *Optimizer) checkFunctionCalls(stmt Statement) error {
 				return err
 			}
 		}
+		if vstmt.GroupBy != nil {
+			// The group by values are evaluated pair by pair, an aggregate
+			// function (also behind the name of a field) is not known there
+			for _, gf := range vstmt.GroupBy.Fields {
+				if err := checkExprFunctionCalls(gf.Expr, false); err != nil {
+					return err
+				}
+			}
+		}
 		return checkExprFunctionCalls(vstmt.Where.Expr, false)
 	case *DeleteStmt:
 		return checkExprFunctionCalls(vstmt.Where.Expr, false)
